@@ -13,7 +13,8 @@ from nix_manipulator.expressions.binding_parser import parse_binding_sequence
 from nix_manipulator.expressions.expression import NixExpression, TypedExpression
 from nix_manipulator.expressions.identifier import Identifier
 from nix_manipulator.expressions.inherit import Inherit
-from nix_manipulator.expressions.layout import empty_line
+from nix_manipulator.expressions.comment import Comment
+from nix_manipulator.expressions.layout import empty_line, linebreak
 from nix_manipulator.expressions.scope import Scope
 from nix_manipulator.expressions.trivia import (
     apply_trailing_trivia,
@@ -480,14 +481,52 @@ class AttributeSet(TypedExpression):
         """Delete a binding by key and surface missing keys explicitly."""
         for i, binding in enumerate(self.values):
             if isinstance(binding, Binding) and binding.name == key:
+                rendered_last = (
+                    self.attrpath_order[-1] is binding
+                    if self.attrpath_order
+                    else i == len(self.values) - 1
+                )
                 del self.values[i]
                 if self.attrpath_order:
                     for index, item in enumerate(self.attrpath_order):
                         if item is binding:
                             del self.attrpath_order[index]
                             break
+                if rendered_last:
+                    self._keep_closing_comments(binding)
                 return
         raise KeyError(key)
+
+    def _keep_closing_comments(self, removed: Binding) -> None:
+        """Own-line comments after the last binding belong to the set, not to it."""
+        start = next(
+            (
+                index
+                for index, item in enumerate(removed.after)
+                if item is linebreak or item is empty_line
+            ),
+            None,
+        )
+        if start is None:
+            return
+        closing = removed.after[start:]
+        if not any(isinstance(item, Comment) for item in closing):
+            return
+        order = self.attrpath_order or self.values
+        previous = order[-1] if order else None
+        if isinstance(previous, _AttrpathEntry):
+            base = (
+                previous.after if previous.after is not None else previous.binding.after
+            )
+            previous.after = list(base) + closing
+        elif previous is None:
+            while closing and not isinstance(closing[0], Comment):
+                closing = closing[1:]
+            self.inner_trivia = [
+                item for item in closing if item is not linebreak
+            ] + list(self.inner_trivia)
+        elif hasattr(previous, "after"):
+            previous.after = list(previous.after) + closing
 
 
 __all__ = ["AttributeSet"]
